@@ -162,6 +162,7 @@ package gzip
 //@   requires s != nil
 //@   modifies MV:map[string]struct{}, MD:map[string]struct{}
 //@ func DefaultExtFilter
+//@   modifies MV:map[string]struct{}, MD:map[string]struct{}
 //@ define skips(cfg Config) bool = exists(j, 0, len(cfg.ResponseFilters), is(cfg.ResponseFilters[j], SkipCompressedFilter))
 //@ func gzipParse
 //@   requires c != nil
@@ -266,3 +267,12 @@ package gzip
 //@   modifies ghost:parsedNow, ghost:registered, Dispenser.cursor, Dispenser.nesting, MV:map[string]struct{}, MD:map[string]struct{}
 //@   at call (*github.com/tmpim/casket/caskethttp/httpserver.SiteConfig).AddMiddleware before [registered_after_this_runs_own_parse] parsedNow == 1
 //@   ensures [one_handler_on_success_none_on_error] parsedNow == 1 && (result == nil ==> registered == 1) && (result != nil ==> registered == 0)
+
+//@ unit default_ext_filter frames=on props=C18,C11 nilchecks=on filter=`gzip\.DefaultExtFilter$`
+//@ // what gzip_parse assumes of DefaultExtFilter: it builds a set of its own and writes nothing else
+//@ use @verif/specs/stdlib.spec:stdlib
+//@ func (Set).Add
+//@   requires s != nil
+//@   modifies MV:map[string]struct{}, MD:map[string]struct{}
+//@ func DefaultExtFilter
+//@   modifies MV:map[string]struct{}, MD:map[string]struct{}
